@@ -533,14 +533,19 @@ func c06Run(r *Run) {
 				}
 				// only helpers that return the (copied) value
 				sig := f.Type().(*types.Signature)
-				if sig.Results().Len() != 1 {
-					continue
+				returnsValue := false
+				if sig.Results().Len() == 1 {
+					rt := sig.Results().At(0).Type()
+					returnsValue = isArr(rt) || isNamed(rt, modPath+"/data", "Value") || isNamed(rt, modPath+"/data", "GetValue")
 				}
-				if rt := sig.Results().At(0).Type(); !isArr(rt) && !isNamed(rt, modPath+"/data", "Value") && !isNamed(rt, modPath+"/data", "GetValue") {
-					continue
-				}
-				// … and whose result is what this function goes on to store
-				if !c06ResultUsed(fd, c) {
+				if returnsValue {
+					// a copying helper whose result is what this function goes on to store
+					if !c06ResultUsed(fd, c) {
+						continue
+					}
+				} else if hp.PkgPath != p.PkgPath {
+					// a store helper of the same package that receives the value and copies it itself
+					// (storeProperty(name, value)); anything else is not followed
 					continue
 				}
 				if po := paramObjAt(hp.TypesInfo, hd, i); po != nil && clonesValueD(hp, hd, po, depth+1) {
